@@ -773,6 +773,13 @@ impl<'g> FnCx<'g> {
                 return Ok(Val { steps, atom: format!("[{}]", atoms.join(", ")), prop: None, ty: Ty::list(ety) });
             }
             ("BitVec::new", 0) => return Ok(Val::pure("[]", Ty::list(Ty::Bool))),
+            ("BTreeSet::default", 0) | ("BTreeSet::new", 0) => {
+                let ty = match expect.map(|t| self.u.resolve(t)) {
+                    Some(t @ Ty::Set(..)) => t,
+                    _ => Ty::Set(Box::new(self.u.fresh_any())),
+                };
+                return Ok(Val::pure("[]", ty));
+            }
             ("FxHashMap::default", 0) | ("HashMap::new", 0) | ("HashMap::default", 0) => {
                 let ty = match expect.map(|t| self.u.resolve(t)) {
                     Some(t @ Ty::Map(..)) => t,
@@ -870,6 +877,20 @@ impl<'g> FnCx<'g> {
                 return Ok(self.extern_result(steps, format!("({} {})", lean, atoms.join(" ")), *rty));
             }
         }
+        // associated functions of translated types: `Type::f(..)`, `Self::f(..)`
+        if let syn::Expr::Path(fp) = &*c.func {
+            if fp.path.segments.len() == 2 {
+                let mut tn = fp.path.segments[0].ident.to_string();
+                if tn == "Self" {
+                    if let Some(Ty::Struct(n)) = SELF_TY.with(|t| t.borrow().clone()) {
+                        tn = n;
+                    }
+                }
+                if let Some(sig) = self.g.fns.get(&format!("{}::{}", tn, last)).cloned() {
+                    return self.emit_call(&sig, &args, c.span());
+                }
+            }
+        }
         // translated functions
         if let Some(sig) = self.g.fns.get(&last).cloned() {
             return self.emit_call(&sig, &args, c.span());
@@ -910,6 +931,35 @@ impl<'g> FnCx<'g> {
     }
 
     /// call of a translated function or method (`args` include the receiver for methods)
+    /// A translated callee that returns `Result` is run in the monad at the call (its `Err` leaves the caller, which is
+    /// what `?` does).  Code that looks at the `Err` case instead (`match`, `if let`, `.ok()`, `.is_err()`, …) would be
+    /// mistranslated, so it is rejected; `call(..).ok()?` is handled in `try_expr`.
+    pub fn reject_run_result(&mut self, v: &Val, ty: &Ty, sp: proc_macro2::Span) -> R<()> {
+        if matches!(ty, Ty::Res(_)) && v.atom.starts_with("(Except.ok ") && v.steps.iter().any(|s| matches!(s, Step::BindOk(..))) {
+            return unsupported("inspecting the Result of a translated call other than by `?`", sp);
+        }
+        Ok(())
+    }
+
+    /// is the expression a call of a translated function or method that returns `Result`?
+    fn translated_res_call(&self, e: &syn::Expr) -> bool {
+        match strip_paren(e) {
+            syn::Expr::Call(c) => match &*c.func {
+                syn::Expr::Path(p) => {
+                    let last = path_last(&p.path);
+                    let key2 = if p.path.segments.len() == 2 { format!("{}::{}", p.path.segments[0].ident, last) } else { String::new() };
+                    self.g.fns.get(&last).or_else(|| self.g.fns.get(&key2)).map(|s| matches!(s.ret, Ty::Res(_))).unwrap_or(false)
+                }
+                _ => false,
+            },
+            syn::Expr::MethodCall(m) => {
+                let name = m.method.to_string();
+                self.g.fns.iter().any(|(k, s)| k.ends_with(&format!("::{}", name)) && matches!(s.ret, Ty::Res(_)))
+            }
+            _ => false,
+        }
+    }
+
     /// the value of a call of an extern parameter: a `Result`-returning extern is run in the monad right away (like a
     /// translated callee), any other is a pure term
     fn extern_result(&mut self, mut steps: Vec<Step>, call: String, rty: Ty) -> Val {
@@ -991,6 +1041,16 @@ impl<'g> FnCx<'g> {
 
     /// a closure literal passed where `Fn(A..) -> R` is expected: a pure Lean lambda
     pub fn closure_arg(&mut self, cl: &syn::ExprClosure, atys: &[Ty]) -> R<Val> {
+        let (v, fallible) = self.closure_arg_res(cl, atys)?;
+        if fallible {
+            return unsupported("closure with a fallible body", cl.span());
+        }
+        Ok(v)
+    }
+
+    /// as `closure_arg`; when the body has steps (calls of translated functions, guards) the lambda returns `Res R`
+    /// and the flag is set (the type reported is still `Fn(A..) -> R`)
+    pub fn closure_arg_res(&mut self, cl: &syn::ExprClosure, atys: &[Ty]) -> R<(Val, bool)> {
         if cl.inputs.len() != atys.len() {
             return unsupported("closure arity", cl.span());
         }
@@ -1017,10 +1077,13 @@ impl<'g> FnCx<'g> {
         let b = self.expr(&cl.body, None)?;
         self.scopes.pop();
         if !b.steps.is_empty() {
-            return unsupported("closure with a fallible body", cl.span());
+            let mut all = psteps.clone();
+            all.extend(b.steps.clone());
+            let body = wrap(&all, format!(".ok {}", b.atom));
+            return Ok((Val { steps: vec![], atom: format!("(fun {} => {})", names.join(" "), paren(&body)), prop: None, ty: Ty::Fun(atys.to_vec(), Box::new(b.ty)) }, true));
         }
         let body = wrap(&psteps, b.atom.clone());
-        Ok(Val { steps: vec![], atom: format!("(fun {} => {})", names.join(" "), paren(&body)), prop: None, ty: Ty::Fun(atys.to_vec(), Box::new(b.ty)) })
+        Ok((Val { steps: vec![], atom: format!("(fun {} => {})", names.join(" "), paren(&body)), prop: None, ty: Ty::Fun(atys.to_vec(), Box::new(b.ty)) }, false))
     }
 
     fn struct_lit(&mut self, st: &syn::ExprStruct) -> R<Val> {
@@ -1066,6 +1129,44 @@ impl<'g> FnCx<'g> {
     }
 
     fn try_expr(&mut self, t: &syn::ExprTry) -> R<Val> {
+        // `call(..).ok()?` on a translated `Result` function inside a function returning `Option`: an `Err` value makes
+        // the caller return `None`; a panic or divergence of the callee stays one (`rsOk`)
+        if let syn::Expr::MethodCall(okm) = strip_paren(&t.expr) {
+            if okm.method == "ok" && okm.args.is_empty() && self.translated_res_call(&okm.receiver) {
+                if !matches!(self.u.resolve(&self.ret.clone()), Ty::Opt(_)) {
+                    return unsupported(".ok()? in a function that does not return Option", t.span());
+                }
+                let inner = self.expr(&okm.receiver, None)?;
+                let mut steps = inner.steps;
+                let (pat, call) = match steps.pop() {
+                    Some(Step::BindOk(pat, call)) => (pat, call),
+                    _ => return unsupported(".ok()? on this call", t.span()),
+                };
+                // the callee's `&mut` arguments are lost on `Err`: the caller must not hand them on
+                for p in self.mut_params.clone() {
+                    if let Some(v) = self.lookup(&p) {
+                        if pat.split(|c: char| !(c.is_alphanumeric() || c == '_')).any(|w| w == v.lean) {
+                            return unsupported(".ok()? on a call that writes a &mut parameter of the caller", t.span());
+                        }
+                    }
+                }
+                let none_ret = {
+                    let nv = Val::pure("none", self.ret.clone());
+                    self.ret_text(Some(&nv))?
+                };
+                let tmp = self.fresh_tmp();
+                steps.push(Step::BindOk(tmp.clone(), format!("rsOk ({})", call)));
+                steps.push(Step::BindSome(pat, tmp, none_ret));
+                let (atom, ty) = match self.u.resolve(&inner.ty) {
+                    Ty::Res(i) => {
+                        let a = inner.atom.strip_prefix("(Except.ok ").and_then(|s| s.strip_suffix(')')).unwrap_or("()").to_string();
+                        (a, *i)
+                    }
+                    other => (inner.atom.clone(), other),
+                };
+                return Ok(Val { steps, atom, prop: None, ty });
+            }
+        }
         let v = self.expr(&t.expr, None)?;
         let ty = self.u.resolve(&v.ty);
         match ty {
@@ -1176,6 +1277,40 @@ impl<'g> FnCx<'g> {
                         steps.extend(right.steps);
                         Ok(Val { steps, atom: format!("(List.zip {} {})", paren_atom(&left.atom), paren_atom(&right.atom)), prop: None, ty: Ty::list(Ty::Tuple(vec![lel, rel])) })
                     }
+                    "map" if m.args.len() == 1 && matches!(strip_paren(&m.args[0]), syn::Expr::Closure(_)) => {
+                        // iterator adaptor with a pure closure: List.map
+                        let inner = self.iter_expr(&m.receiver)?;
+                        let el = match self.u.resolve(&inner.ty) {
+                            Ty::List(t) => *t,
+                            Ty::Set(t) => *t,
+                            Ty::Str => Ty::u8(),
+                            _ => return unsupported("map over a non-list", e.span()),
+                        };
+                        let cl = match strip_paren(&m.args[0]) {
+                            syn::Expr::Closure(c) => c,
+                            _ => unreachable!(),
+                        };
+                        let (f, fallible) = self.closure_arg_res(cl, &[el])?;
+                        let r = match &f.ty {
+                            Ty::Fun(_, r) => (**r).clone(),
+                            _ => return unsupported("map closure", e.span()),
+                        };
+                        if fallible {
+                            // the closure calls translated (fallible) functions: run the map in the monad, left to right
+                            let t = self.fresh_tmp();
+                            let mut steps = inner.steps;
+                            steps.push(Step::BindOk(t.clone(), format!("rsMapM {} {}", f.atom, paren_atom(&inner.atom))));
+                            return Ok(Val { steps, atom: t, prop: None, ty: Ty::list(r) });
+                        }
+                        Ok(Val { steps: inner.steps, atom: format!("({}.map {})", paren_atom(&inner.atom), f.atom), prop: None, ty: Ty::list(r) })
+                    }
+                    "unwrap_or_default" if m.args.is_empty() => {
+                        let recv = self.expr(&m.receiver, None)?;
+                        match self.u.resolve(&recv.ty) {
+                            Ty::Opt(t) if matches!(*t, Ty::List(_) | Ty::Str) => Ok(Val { steps: recv.steps, atom: format!("({}.getD [])", paren_atom(&recv.atom)), prop: None, ty: *t }),
+                            _ => unsupported("unwrap_or_default on this type", e.span()),
+                        }
+                    }
                     "rev" => {
                         let inner = self.iter_expr(&m.receiver)?;
                         Ok(Val { steps: inner.steps, atom: format!("{}.reverse", paren_atom(&inner.atom)), prop: None, ty: inner.ty })
@@ -1276,6 +1411,8 @@ impl<'g> FnCx<'g> {
                 let v = self.expr(e, None)?;
                 match self.u.resolve(&v.ty) {
                     Ty::List(_) | Ty::Str => Ok(v),
+                    // a BTreeSet iterates in ascending order: the list that represents it
+                    Ty::Set(t) => Ok(Val { steps: v.steps, atom: v.atom, prop: None, ty: Ty::List(t) }),
                     _ => unsupported("iteration over this expression", e.span()),
                 }
             }
@@ -1311,6 +1448,7 @@ impl<'g> FnCx<'g> {
 
     pub fn is_mutating_method(&self, m: &syn::ExprMethodCall) -> bool {
         matches!(m.method.to_string().as_str(), "push" | "push_str" | "clear" | "truncate" | "extend_from_slice" | "resize" | "store_le" | "pop" | "sort_by_key" | "sort_unstable_by_key" | "set" | "next" | "copy_from_slice")
+            || (m.method == "insert" && m.args.len() == 1)
     }
 
     /// `v.push(x)` and friends as a statement: rebind the receiver
@@ -1397,10 +1535,24 @@ impl<'g> FnCx<'g> {
         let elem = match &vty {
             Ty::List(t) => (**t).clone(),
             Ty::Str => Ty::u8(),
+            Ty::Set(t) => (**t).clone(),
             _ => return unsupported("mutating method on a non-list", m.span()),
         };
         let mut steps = vec![];
+        if matches!(vty, Ty::Set(_)) && !(m.method == "insert" && m.args.len() == 1) {
+            return unsupported("mutating method on a set", m.span());
+        }
         let new = match (m.method.to_string().as_str(), m.args.len()) {
+            ("insert", 1) if matches!(vty, Ty::Set(_)) => {
+                // BTreeSet<unsigned>::insert as a statement (the returned flag is dropped)
+                let a = self.expr(&m.args[0], Some(&elem))?;
+                let at = self.u.unify(&elem, &a.ty)?;
+                if !matches!(self.u.resolve(&at), Ty::Int(it) if !it.signed()) {
+                    return unsupported("set of something other than unsigned integers", m.span());
+                }
+                steps.extend(a.steps.clone());
+                format!("rsSetInsert {} {}", var.lean, paren_atom(&a.atom))
+            }
             ("push", 1) => {
                 let a = self.expr(&m.args[0], Some(&elem))?;
                 // String::push takes a char: only ASCII is supported (one byte)
@@ -1522,6 +1674,7 @@ impl<'g> FnCx<'g> {
         }
         let recv = self.expr(&m.receiver, None)?;
         let rty = self.u.resolve(&recv.ty);
+        self.reject_run_result(&recv, &rty, m.span())?;
         if let Ty::Struct(sn) = &rty {
             if let Some(sig) = self.g.fns.get(&format!("{}::{}", sn, name)).cloned() {
                 let mut args: Vec<&syn::Expr> = vec![&m.receiver];
@@ -1593,7 +1746,7 @@ impl<'g> FnCx<'g> {
             // views that do not change the representation
             (Ty::Str, "as_bytes", 0) | (Ty::Str, "bytes", 0) => pure(steps, a, Ty::bytes()),
             (Ty::Str, "as_str", 0) | (Ty::Str, "to_string", 0) | (Ty::Str, "to_owned", 0) | (Ty::Str, "clone", 0) | (Ty::Str, "as_ref", 0) => pure(steps, a, Ty::Str),
-            (Ty::List(_), "as_slice", 0) | (Ty::List(_), "to_vec", 0) | (Ty::List(_), "clone", 0) | (Ty::List(_), "iter", 0) | (Ty::List(_), "as_ref", 0) => pure(steps, a, rty.clone()),
+            (Ty::List(_), "as_slice", 0) | (Ty::List(_), "to_vec", 0) | (Ty::List(_), "clone", 0) | (Ty::List(_), "iter", 0) | (Ty::List(_), "as_ref", 0) | (Ty::List(_), "copied", 0) | (Ty::List(_), "cloned", 0) | (Ty::List(_), "into_iter", 0) => pure(steps, a, rty.clone()),
             (Ty::Int(_), "clone", 0) | (Ty::Bool, "clone", 0) => pure(steps, a, rty.clone()),
             (Ty::List(_), "len", 0) | (Ty::Str, "len", 0) => pure(steps, format!("{}.length", paren_atom(&a)), Ty::usize()),
             (Ty::List(_), "is_empty", 0) | (Ty::Str, "is_empty", 0) => {
@@ -1610,6 +1763,28 @@ impl<'g> FnCx<'g> {
                 };
                 // a char needle must be ASCII for the byte reading to be right
                 pure(steps, format!("(List.isPrefixOf {} {})", needle, paren_atom(&a)), Ty::Bool)
+            }
+            (Ty::Str, "ends_with", 1) => {
+                let arg = self.expr(&m.args[0], None)?;
+                steps.extend(arg.steps.clone());
+                let needle = match self.u.resolve(&arg.ty) {
+                    // a char needle must be ASCII for the byte reading to be right
+                    Ty::Char if arg.atom.parse::<u32>().map(|c| c < 128).unwrap_or(false) => format!("[{}]", arg.atom),
+                    Ty::Str => arg.atom.clone(),
+                    _ => return unsupported("ends_with argument", m.span()),
+                };
+                pure(steps, format!("(List.isSuffixOf {} {})", needle, paren_atom(&a)), Ty::Bool)
+            }
+            (Ty::Opt(t), "filter", 1) => {
+                let cl = match strip_paren(&m.args[0]) {
+                    syn::Expr::Closure(c) => c,
+                    _ => return unsupported("filter with a non-closure", m.span()),
+                };
+                let f = self.closure_arg(cl, &[(**t).clone()])?;
+                if !matches!(&f.ty, Ty::Fun(_, r) if **r == Ty::Bool) {
+                    return unsupported("filter closure not returning bool", m.span());
+                }
+                pure(steps, format!("({}.filter {})", paren_atom(&a), f.atom), rty.clone())
             }
             (Ty::List(t), "get", 1) => {
                 let arg = self.expr(&m.args[0], Some(&Ty::usize()))?;
@@ -1636,7 +1811,11 @@ impl<'g> FnCx<'g> {
             }
             (Ty::Str, "into", 0) => pure(steps, a, Ty::Str),
             (Ty::Opt(t), "as_deref", 0) => pure(steps, a, Ty::opt((**t).clone())),
-            (Ty::Opt(t), "map", 1) if matches!(strip_paren(&m.args[0]), syn::Expr::Path(p) if matches!(path_text(&p.path).as_str(), "Into::into" | "Box::as_ref" | "Box::as_mut" | "Arc::as_ref")) => pure(steps, a, Ty::opt((**t).clone())),
+            (Ty::Opt(t), "map", 1) if matches!(strip_paren(&m.args[0]), syn::Expr::Path(p) if matches!(path_text(&p.path).as_str(), "Into::into" | "Box::as_ref" | "Box::as_mut" | "Arc::as_ref") || (matches!(path_text(&p.path).as_str(), "SourceView::source" | "SourceView::new") && matches!(&**t, Ty::Str))) => pure(steps, a, Ty::opt((**t).clone())),
+            (Ty::Opt(t), "and_then", 1) if matches!((&**t, strip_paren(&m.args[0])), (Ty::Opt(_), syn::Expr::Path(p)) if path_text(&p.path) == "Option::as_ref") => {
+                // Option<&Option<T>>::and_then(Option::as_ref): join
+                pure(steps, format!("{}.join", paren_atom(&a)), (**t).clone())
+            }
             (Ty::Opt(t), "and_then", 1) => {
                 // opt.and_then(|x| e) with a pure closure returning an Option
                 let cl = match strip_paren(&m.args[0]) {
@@ -1853,6 +2032,38 @@ impl<'g> FnCx<'g> {
                 steps.extend(arg.steps.clone());
                 pure(steps, format!("(match {} with | some v_ => Except.ok v_ | none => Except.error {})", a, arg.atom), Ty::res((**t).clone()))
             }
+            (Ty::List(t), "position", 1) => {
+                // iter().position(|x| p): index of the first element satisfying a pure predicate
+                let cl = match strip_paren(&m.args[0]) {
+                    syn::Expr::Closure(c) => c,
+                    _ => return unsupported("position with a non-closure", m.span()),
+                };
+                let f = self.closure_arg(cl, &[(**t).clone()])?;
+                if !matches!(&f.ty, Ty::Fun(_, r) if **r == Ty::Bool) {
+                    return unsupported("position closure not returning bool", m.span());
+                }
+                pure(steps, format!("(List.findIdx? {} {})", f.atom, paren_atom(&a)), Ty::opt(Ty::usize()))
+            }
+            (Ty::Set(t), "contains", 1) | (Ty::List(t), "contains", 1) => {
+                let arg = self.expr(&m.args[0], Some(t))?;
+                self.u.unify(t, &arg.ty)?;
+                steps.extend(arg.steps.clone());
+                pure(steps, format!("({}.contains {})", paren_atom(&a), paren_atom(&arg.atom)), Ty::Bool)
+            }
+            (Ty::Opt(t), "ok_or_else", 1) => {
+                // the error thunk: a zero-argument closure literal, or a name bound to one
+                let body: syn::Expr = match strip_paren(&m.args[0]) {
+                    syn::Expr::Closure(cl) if cl.inputs.is_empty() => (*cl.body).clone(),
+                    syn::Expr::Path(p) if p.path.segments.len() == 1 && self.thunks.contains_key(&p.path.segments[0].ident.to_string()) => self.thunks[&p.path.segments[0].ident.to_string()].clone(),
+                    _ => return unsupported("ok_or_else argument", m.span()),
+                };
+                let arg = self.expr(&body, Some(&Ty::Error))?;
+                self.u.unify(&arg.ty, &Ty::Error)?;
+                if !arg.steps.is_empty() {
+                    return unsupported("ok_or_else with a fallible thunk", m.span());
+                }
+                pure(steps, format!("(match {} with | some v_ => Except.ok v_ | none => Except.error {})", a, arg.atom), Ty::res((**t).clone()))
+            }
             (Ty::Opt(t), "map_or", 2) => {
                 // opt.map_or(default, f) with f a function value or a pure closure
                 let d = self.expr(&m.args[0], None)?;
@@ -1955,6 +2166,24 @@ impl<'g> FnCx<'g> {
                         a = format!("{}.1", paren_atom(&a));
                     }
                     self.bind_pattern(sub, &a, sty, steps)?;
+                }
+                Ok(())
+            }
+            syn::Pat::Struct(ps) => {
+                // `let S { a, b: c } = e;` on a translated struct: one projection per named field
+                let sn = path_last(&ps.path);
+                match self.u.resolve(ty) {
+                    Ty::Struct(n) if n == sn => {}
+                    other => return Err(format!("unsupported: struct pattern {} against {:?}", sn, other)),
+                }
+                let fields = self.g.structs.get(&sn).cloned().ok_or(format!("unsupported: struct pattern of {}", sn))?;
+                for fp in &ps.fields {
+                    let fname = match &fp.member {
+                        syn::Member::Named(i) => i.to_string(),
+                        _ => return unsupported("tuple-struct field pattern", p.span()),
+                    };
+                    let fty = fields.iter().find(|(f, _)| *f == fname).map(|(_, t)| t.clone()).ok_or(format!("unsupported: field {} of {} is not kept", fname, sn))?;
+                    self.bind_pattern(&fp.pat, &format!("{}.{}", paren_atom(atom), sanitize(&fname)), &fty, steps)?;
                 }
                 Ok(())
             }
